@@ -8,6 +8,7 @@ import Mathlib.Tactic.NormNum
 import BC.Real
 import BC.Model.Traj
 import BC.Lemmas.Loop
+import BC.Lemmas.C02
 
 namespace BC.Props.C02
 open BC BC.Model BC.Lemmas.Loop
@@ -131,5 +132,33 @@ theorem C02_zero_angle_def (r : Run ℝ) (e0 d : ℝ) (fuel sf : Nat) :
   · intro e rows row0 row1 rest h hr
     subst hr
     simp only [zeroMiss, h, fn_tan]
+
+/-- **C02_hits_sight_line** (full): when zeroing returns an elevation `e`, the trajectory then fired with `e` to the aim
+    point's horizontal distance, recorded with that distance as step, has as its second row the trajectory interpolated
+    at the aim distance, and that row's distance from the sight line (`target_drop`, raw inches) is at most the
+    zero-finding accuracy times |cos(look)| — for level, uphill and downhill sight lines alike, whatever the wind. -/
+theorem C02_hits_sight_line (r : Run ℝ) (e0 d e : ℝ) (fuel sf : Nat) (hacc : 0 < r.cfg.zeroAccuracy)
+    (h : zeroAngle r e0 d fuel sf = .ok e) :
+    ∃ row0 row1 rest,
+      integrate r e (Real.cos r.proj.lookAngle * d) (Real.cos r.proj.lookAngle * d) fRANGE 0.0 fuel sf
+        = .ok (row0 :: row1 :: rest) ∧
+      |row1.targetDrop| ≤ r.cfg.zeroAccuracy * |Real.cos r.proj.lookAngle| * 12 := by
+  rw [(C02_zero_angle_def r e0 d fuel sf).1] at h
+  obtain ⟨miss, hmiss, hle⟩ := C02_returned_meets_accuracy r.cfg _ _ e0 e _ hacc h
+  unfold zeroMiss at hmiss
+  split at hmiss
+  · cases hmiss
+  rename_i rows hint
+  split at hmiss
+  · rename_i row0 row1 rest
+    simp only [Except.ok.injEq, fn_tan] at hmiss
+    refine ⟨row0, row1, rest, hint, ?_⟩
+    have htd := BC.Lemmas.C02.integrate_rows_targetDrop hint row1 (by simp)
+    have hm : row1.targetDrop = miss * Real.cos r.proj.lookAngle * 12 := by
+      rw [htd, ← hmiss]; ring
+    rw [hm, abs_mul, abs_mul, abs_of_pos (by norm_num : (0:ℝ) < 12)]
+    have hc : 0 ≤ |Real.cos r.proj.lookAngle| := abs_nonneg _
+    nlinarith [mul_le_mul_of_nonneg_right hle hc]
+  · cases hmiss
 
 end BC.Props.C02
